@@ -75,6 +75,22 @@ pub fn run(args: &Args) -> serde_json::Value {
         if st1 != st0 || sl1 != sl0 || c1 != c0 {
             oracle_failures.push(json!({"what": format!("conversion did not carry over state / operator string / cutoff (cutoff {} -> {})", c0, c1), "context": ctx}));
         }
+        // every carried-over operator must be a term of the CONVERTED Hamiltonian: its bond index must name an
+        // interaction on exactly its variables, with its constant flag, and a positive matrix element (computed here
+        // from J, Gamma, h of the Ising model, not through the library)
+        for (p, o) in sl1.iter().enumerate() {
+            if let Some(o) = o {
+                let inter = q.get_bonds().get(o.bond);
+                // the interaction's variable list is private: read it through its serde form
+                let vars_ok = inter.map_or(false, |it| serde_json::to_value(it).ok().and_then(|v| serde_json::from_value::<Vec<usize>>(v["vars"].clone()).ok()) == Some(o.vars.clone()));
+                let const_ok = inter.map_or(false, |it| it.is_constant() == o.constant);
+                let w = if o.bond < spec.nbonds() && spec.bond_vars(o.bond) == o.vars { spec.weight(o.bond, &o.ins, &o.outs) } else { -1.0 };
+                if !vars_ok || !const_ok || !(w > 0.0) {
+                    oracle_failures.push(json!({"prop": "C07,C15", "what": format!("after conversion the operator at slot {} ({:?}) is not a legal term of the converted sampler's interaction {}: variables match {}, constant flag matches {}, matrix element {}", p, o, o.bond, vars_ok, const_ok, w), "context": ctx}));
+                    break;
+                }
+            }
+        }
         // Hamiltonian: every matrix element of every converted bond
         let mut elements: Vec<Vec<Option<f64>>> = vec![];
         for (b, it) in q.get_bonds().iter().enumerate() {
@@ -164,8 +180,8 @@ pub fn run(args: &Args) -> serde_json::Value {
         }
     }
     // world-line failures first, so that a truncated list still shows them
-    oracle_failures.sort_by_key(|f| if f["prop"].as_str() == Some("C15") { 1 } else { 0 });
-    oracle_failures.truncate(60);
+    oracle_failures.sort_by_key(|f| match f["prop"].as_str() { Some("C15") => 2, Some("C07,C15") => 1, _ => 0 });
+    crate::cap_failures(&mut oracle_failures, 25);
     let files = crate::write_shards(&args.out, "C15", "C15", &coq, 100);
     json!({"files": files, "evaluations": coq.len(), "distinct_nontrivial": distinct.len(), "with_longitudinal_field": n_h,
         "converted_after_steps": n_after_steps, "converted_after_count_shrank": n_shrunk, "world_line_checks_after_conversion": n_wf_checks, "converted_with_cutoff_below_nvars": n_cut_below_nvars, "lockstep_steps": n_lockstep,
